@@ -78,6 +78,7 @@ def run(ctx):
   ctx.extra['bitcoincore_rpc_call_sites'] = n_typed
   ctx.floor('R23.2', 'bitcoincore_rpc call sites inspected', n_typed, 40)
 
+  _r23_4(ctx)
   # ---- R23.3
   b = ctx.body('R23.3', LOCK)
   if b is not None:
@@ -85,8 +86,19 @@ def run(ctx):
     ctx.anchor('R23.3', 'lock_unspent call in lock_non_cardinal_outputs', len(lus) >= 1, b.n)
     for lu in lus:
       sl = b.slice_of(lu.args[1:])
-      has_i = sl.has_call('ord::wallet::Wallet::inscriptions')
-      has_r = sl.has_call('ord::wallet::Wallet::get_runic_outputs')
+      # closures on the chain (filter / map predicates) may consult the wallet too
+      cl_calls = []
+      seen_cl = set()
+      work_cl = list(sl.closures)
+      while work_cl:
+        cd = work_cl.pop()
+        if cd in seen_cl or cd not in F.bodies:
+          continue
+        seen_cl.add(cd)
+        cl_calls += F.bodies[cd].calls
+        work_cl += [x for x in F.callees(cd) if '{closure' in x]
+      has_i = sl.has_call('ord::wallet::Wallet::inscriptions') or any(c.is_('ord::wallet::Wallet::inscriptions') for c in cl_calls)
+      has_r = sl.has_call('ord::wallet::Wallet::get_runic_outputs') or any(c.is_('ord::wallet::Wallet::get_runic_outputs') for c in cl_calls)
       ctx.ob('R23.3', b.n, 'lock_unspent(outputs<-inscriptions)', has_i, 'locked set does not derive from self.inscriptions()' if not has_i else '', where(b, lu.line))
       ctx.ob('R23.3', b.n, 'lock_unspent(outputs<-get_runic_outputs)', has_r, 'locked set does not derive from self.get_runic_outputs()' if not has_r else '', where(b, lu.line))
       # result tested: a guard depending on lu dominates every normal return that yields Ok
@@ -96,3 +108,64 @@ def run(ctx):
       from .common import result_is_checked
       tested = result_is_checked(b, lu)
       ctx.ob('R23.3', b.n, 'lock_unspent result tested', tested, 'result of lock_unspent is dropped' if not tested else '', where(b, lu.line))
+
+
+INSCRIPTIONS = 'ord::wallet::Wallet::inscriptions'
+RUNIC = 'ord::wallet::Wallet::get_runic_outputs'
+FUND = 'ord::fund_raw_transaction::fund_raw_transaction'
+
+
+def _r23_4(ctx):
+  """sibling rule: every body that hands preset runic inputs to a node-funded transaction filters out inscribed outputs;
+  and the inscribed-output set is always built by projecting every inscription satpoint to its outpoint"""
+  from ..facts import origins
+  from .common import deep_origins
+  F = ctx.facts
+  ctx.rule('R23.4', 'every body that both selects runic outputs (get_runic_outputs) as preset inputs and lets the node fund the transaction filters those outputs with '
+           '¬inscribed_outputs.contains(output), inscribed_outputs being derived from Wallet::inscriptions() (sibling agreement between rune send/burn and split)')
+  ctx.rule('R23.5', 'where the wallet decides which outputs are inscribed (lock set, preset-input filters), Wallet::inscriptions() is consumed through keys() projected to .outpoint — '
+           'never through an exact SatPoint lookup (contains_key / get), which sees only one offset')
+  sites = 0
+  for b in F.bodies.values():
+    if not (b.n.startswith('ord::wallet') or b.n.startswith('ord::subcommand::wallet')) or '{closure' in b.n:
+      continue
+    if not (b.calls_to(RUNIC) and b.calls_to(FUND)):
+      continue
+    sites += 1
+    ctx.analysed(b)
+    fam = F.family(b.n)
+    ok = False
+    for cb in fam:
+      if cb is b:
+        continue
+      for c in cb.calls:
+        if not c.is_('re:(HashSet|BTreeSet).*::contains$'):
+          continue
+        ups = [o.name for o in origins(cb, c.args[0]) if o.kind == 'upvar']
+        # negated result is what the closure returns
+        neg = any(s.get('rv', {}).get('k') == 'un' and s['rv']['op'] == 'Not' for blk in cb.blocks for s in blk['s'])
+        for u in ups:
+          for l in b.locals_named(u):
+            os_ = deep_origins(b, {'l': l}, all_args=True)
+            if neg and any(o.kind == 'call' and o.call.is_(INSCRIPTIONS) for o in os_) and any(o.kind == 'call' and o.call.is_('re:BTreeMap.*::keys$') for o in os_):
+              # the closure must be the predicate of a filter over the runic outputs
+              for fc in b.calls_to('std::iter::Iterator::filter'):
+                if cb.path in b.slice_of([fc.args[1]], through_calls=False).closures and any(o.kind == 'call' and o.call.is_(RUNIC) for o in deep_origins(b, fc.args[0])):
+                  ok = True
+    ctx.ob('R23.4', b.n, 'preset runic inputs are filtered by ¬inscribed_outputs.contains(output)', ok,
+           'runic outputs that also hold an inscription become inputs of a node-funded transaction (the sibling command filters them out)', f'{b.file}:{b.line}')
+  ctx.floor('R23.4', 'bodies that combine get_runic_outputs with fund_raw_transaction', sites, 2)
+  # R23.5
+  n = 0
+  scope = [x for x in F.bodies.values() if x.n.startswith('ord::wallet::Wallet::lock_non_cardinal_outputs') or x.n.startswith('ord::wallet::Wallet::create_unsigned_send_or_burn_runes_transaction')
+           or x.n.startswith('ord::subcommand::wallet::split::Split::run') or x.n.startswith('ord::subcommand::wallet::cardinals::')]
+  for b in scope:
+    ctx.analysed(b)
+    for c in b.calls:
+      if c.is_(INSCRIPTIONS):
+        n += 1
+      if c.is_('re:BTreeMap.*::(contains_key|get|get_mut|get_key_value)$') and any(o.kind == 'call' and o.call.is_(INSCRIPTIONS) for o in deep_origins(b, c.args[0])):
+        ctx.ob('R23.5', b.n, 'Wallet::inscriptions() consulted by exact SatPoint lookup', False,
+               'an output is treated as inscribed only if an inscription sits at the looked-up offset; inscriptions at other offsets of the same output are missed', f'{b.file}:{c.line}')
+  ctx.floor('R23.5', 'Wallet::inscriptions() uses in the lock / preset-input bodies', n, 3)
+  ctx.ob('R23.5', 'ord::wallet', 'no exact-satpoint lookup into Wallet::inscriptions() in the lock / preset-input bodies', True, '', nontrivial=False)
